@@ -1,7 +1,7 @@
 """C06 — compression is lossless, correctly labelled and only what the client accepts."""
 import re
 import resource
-import struct
+from fractions import Fraction
 
 from kv import Case, xn, xb, xl, xlist, xbool, xopt, xparse
 
@@ -28,37 +28,56 @@ THEOREMS = [
     ("never_refused", SV + r""" (c : cresp) (ae : option bytes) (o : options) (l : option bytes) (b : bytes) (a : alg) (c' : cresp),
        clone_preferred parse_q parse_mime enc c ae o = (Sent l b (Alg a), c') ->
        ~ (forall q : qclass, In (alg_name a, q) (header_values parse_q ae) -> q = QZero)"""),
+    ("refuses_identity_iff", r"""forall values : list (bytes * qclass),
+       disable_identity values = true <->
+       ((exists v, In (v, QZero) values /\ lower v = s_identity) \/
+        (In (s_star, QZero) values /\ forall v q, In (v, q) values -> lower v <> s_identity))"""),
     ("identity_refusal_honoured", SV + r""" (c : cresp) (ae : option bytes) (o : options) (r : reply) (c' : cresp),
-       cr_compress c = true -> In (s_identity, QZero) (header_values parse_q ae) ->
+       disable_identity (header_values parse_q ae) = true ->
        clone_preferred parse_q parse_mime enc c ae o = (r, c') -> forall (l : option bytes) (b : bytes), r <> Sent l b Identity"""),
-    ("floors", SV + r""" (body : bytes) (ct : option bytes) (compress : bool) (ae : option bytes) (o : options),
+    ("floors", SV + r""" (body : bytes) (ct hce : option bytes) (compress : bool) (ae : option bytes) (o : options),
        (length body < 50)%nat \/ compress = false ->
-       clone_preferred parse_q parse_mime enc (cresp_new body ct compress) ae o =
-       (Sent (match body with [] => None | _ => Some s_identity end) body Identity, cresp_new body ct compress)"""),
+       clone_preferred parse_q parse_mime enc (cresp_new body ct hce compress) ae o =
+       (if disable_identity (header_values parse_q ae) then NotAcceptable
+        else Sent (match body with [] => hce | _ => Some s_identity end) body Identity,
+        cresp_new body ct hce compress)"""),
     ("floors_content_type", SV + r""" (c : cresp) (ae : option bytes) (o : options) (r : reply) (c' : cresp),
        compressible parse_mime c = false -> clone_preferred parse_q parse_mime enc c ae o = (r, c') ->
        c' = c /\ (r = NotAcceptable \/
-                  r = Sent (match cr_body c with [] => None | _ => Some s_identity end) (cr_body c) Identity)"""),
+                  r = Sent (match cr_body c with [] => cr_hce c | _ => Some s_identity end) (cr_body c) Identity)"""),
     ("label_matches_body", SV + r""" (c : cresp) (ae : option bytes) (o : options) (l : option bytes) (b : bytes) (ch : coding) (c' : cresp),
        cells_ok enc c -> clone_preferred parse_q parse_mime enc c ae o = (Sent l b ch, c') ->
-       l = match b with [] => None | _ => Some (coding_name ch) end /\
+       l = match b with [] => cr_hce c | _ => Some (coding_name ch) end /\
        match ch with
        | Identity => b = cr_body c /\ c' = c
        | Alg a => (exists level, b = enc a level (cr_body c)) /\ cell_get a c' = Some b
        end /\
-       cells_ok enc c' /\ cr_body c' = cr_body c /\ cr_compress c' = cr_compress c /\ cr_ctype c' = cr_ctype c"""),
+       cells_ok enc c' /\ cr_body c' = cr_body c /\ cr_compress c' = cr_compress c /\ cr_ctype c' = cr_ctype c /\
+       cr_hce c' = cr_hce c"""),
+    ("handler_coding_overwritten", SV + r""" (c : cresp) (ae : option bytes) (o : options) (l : option bytes) (b : bytes) (ch : coding) (c' : cresp),
+       clone_preferred parse_q parse_mime enc c ae o = (Sent l b ch, c') -> b <> [] -> l = Some (coding_name ch)"""),
     ("memoised_bytes_reused", r"""forall (enc : alg -> N -> bytes -> bytes) (a : alg) (level : N) (c : cresp) (b : bytes),
        cell_get a c = Some b -> get_alg enc a level c = (b, c)"""),
+    ("memoised_reply", SV + r""" (pg : page) (e : option cresp) (rq : meth * option bytes) (r : reply) (e' : option cresp),
+       handle parse_q parse_mime enc pg e rq = (r, e') -> was_memoised e rq r = true ->
+       exists c a l b, visible e (fst rq) = Some c /\ r = Sent l b (Alg a) /\ cell_get a c = Some b /\
+                       exists c', e' = Some c' /\ cell_get a c' = Some b"""),
+    ("serve_meets_spec", SV + r""" (pg : page) (groups : list (meth * option bytes * nat)),
+       Forall2 (fun g rs => Forall (fun r => reply_allowed (spec_verdict parse_q parse_mime pg (snd (fst g))) r = true) (map fst rs))
+               groups (serve_groups parse_q parse_mime enc pg None groups)"""),
     ("lossless_partial", SV + r""" (dec : alg -> bytes -> bytes),
        (forall a level b, dec a (enc a level b) = b) -> (forall a level b, enc a level b <> []) ->
-       forall pg reqs,
-         Forall (fun r => r = NotAcceptable \/
-                          exists l b ch, r = Sent l b ch /\ decode_label dec l b = Some (pg_body pg))
-                (serve parse_q parse_mime enc pg None reqs)"""),
+       forall (pg : page) (groups : list (meth * option bytes * nat)),
+         (pg_body pg <> [] \/ pg_hce pg = None \/ pg_hce pg = Some s_identity) ->
+         Forall (fun rs => Forall (fun r => r = NotAcceptable \/
+                                            exists l b ch, r = Sent l b ch /\ decode_label dec l b = Some (pg_body pg))
+                                  (map fst rs))
+                (serve_groups parse_q parse_mime enc pg None groups)"""),
     ("not_acceptable_iff", SV + r""" (c : cresp) (ae : option bytes) (o : options),
        fst (clone_preferred parse_q parse_mime enc c ae o) = NotAcceptable <->
-       cr_compress c = true /\ In (s_identity, QZero) (header_values parse_q ae) /\
-       (compressible parse_mime c = false \/ forall a, contains (header_values parse_q ae) (alg_name a) = false)"""),
+       disable_identity (header_values parse_q ae) = true /\
+       (cr_compress c = false \/ compressible parse_mime c = false \/
+        forall a, contains (header_values parse_q ae) (alg_name a) = false)"""),
     ("preference_order", r"""forall p cz cb cg,
        pick p cz cb cg =
        match p with
@@ -78,48 +97,72 @@ THEOREMS = [
        let st := mrun vals (minit cell n) sched in
        (forall b, m_cell st = Some b -> P b) /\
        (forall i r, nth_error (m_pcs st) i = Some (PDone r) -> exists b, r = Ok b /\ P b)"""),
-    ("memo_write_once", r"""forall vals sched st b, m_cell st = Some b -> m_cell (mrun vals st sched) = Some b"""),
+    ("memo_write_once", r"""forall vals n cell sched1 sched2 b,
+       m_cell (mrun vals (minit cell n) sched1) = Some b -> m_cell (mrun vals (minit cell n) (sched1 ++ sched2)) = Some b"""),
     ("memo_completes", r"""forall vals cell n sched,
-       (forall i, (i < n)%nat -> (4 <= count_occ Nat.eq_dec sched i)%nat) ->
-       forallb pc_done (m_pcs (mrun vals (minit cell n) sched)) = true"""),
+       let st := mrun vals (minit cell n) sched in
+       (total_left (minit cell n) = 4 * n)%nat /\
+       (forallb pc_done (m_pcs st) = true \/
+        exists i st', mstep vals st i = Some st' /\ (total_left st' < total_left st)%nat)"""),
+    ("memo_double_write_v0_refuted", r"""exists vals sched1 sched2 b b',
+       b <> b' /\
+       m0_cell (mrun0 vals (minit0 2) sched1) = Some b /\
+       nth_error (m0_pcs (mrun0 vals (minit0 2) sched1)) 0 = Some (P0Done (Ok b)) /\
+       m0_cell (mrun0 vals (minit0 2) (sched1 ++ sched2)) = Some b'"""),
     ("list_header_ows_v0_refuted", r"""exists ms, ms <> [] /\ forallb member_ok ms = true /\
        list_header_gen parse_q_dec false (members_text ms) <> map (member_ref parse_q_dec) ms /\
        In (B "gzip", QOne) (list_header_gen parse_q_dec false (members_text ms))"""),
+    ("identity_refusal_floor_v0_refuted", r"""exists c ae o l b, disable_identity (header_values parse_q_dec ae) = true /\
+       fst (clone_preferred_gen parse_q_dec parse_mime_std enc_tag (mkFixes false true true) c ae o) = Sent l b Identity"""),
+    ("identity_refusal_optout_v0_refuted", r"""exists body ae o l b, (50 <= length body)%nat /\ disable_identity (header_values parse_q_dec ae) = true /\
+       fst (clone_preferred_gen parse_q_dec parse_mime_std enc_tag (mkFixes false true true)
+              (cresp_new body (Some (B "text/html")) None false) ae o) = Sent l b Identity"""),
+    ("identity_refusal_star_v0_refuted", r"""exists c ae o l b, disable_identity (header_values parse_q_dec ae) = true /\
+       fst (clone_preferred_gen parse_q_dec parse_mime_std enc_tag (mkFixes true false true) c ae o) = Sent l b Identity"""),
+    ("identity_refusal_case_v0_refuted", r"""exists c ae o l b, disable_identity (header_values parse_q_dec ae) = true /\
+       fst (clone_preferred_gen parse_q_dec parse_mime_std enc_tag (mkFixes true true false) c ae o) = Sent l b Identity"""),
 ]
 
 # ------------------------------------------------------------------------------------------
 # reference readings, independent of the Coq model
 # ------------------------------------------------------------------------------------------
-PLAIN_DEC = re.compile(rb"(\d+\.?\d*|\.\d+)\Z")
-# a tail of a list member that Rust's f32::from_str may accept but the model's decimal stand-in does not
-EXOTIC_TAIL = re.compile(rb"(?i)(inf|infinity|nan|[0-9.][e][+-]?[0-9]+|[+-][0-9]*\.?[0-9]*)[ \t]*\Z")
+# the texts <f32 as FromStr>::from_str accepts (core::num::dec2flt)
+F32_TEXT = re.compile(rb"(?i)[+-]?(?:inf|infinity|nan|(?:\d+\.?\d*|\.\d+)(?:e[+-]?\d+)?)\Z")
+F32_NUM = re.compile(rb"(?i)([+-]?)(\d*)\.?(\d*)(?:e([+-]?\d+))?\Z")
+TWO_M150 = Fraction(1, 2 ** 150)
+ONE_LO = Fraction(2 ** 25 - 1, 2 ** 25)
+ONE_HI = Fraction(2 ** 24 + 1, 2 ** 24)
 
 
 def f32class(s):
-    """0: parses to 0.0f32, 1: to 1.0f32, 2: another value, None: not a plain decimal."""
-    if not PLAIN_DEC.match(s):
+    """0: parses to (+-)0.0f32, 1: to 1.0f32, 2: another value (also inf / nan), None: f32::from_str rejects the text.
+    Exact: the decimal value is compared with the binary32 rounding boundaries (correctly rounded parse, ties to even)."""
+    if not F32_TEXT.match(s):
         return None
-    try:
-        v = struct.unpack("f", struct.pack("f", float(s)))[0]
-    except OverflowError:
+    m = F32_NUM.match(s)
+    if m is None or s.lower().lstrip(b"+-") in (b"inf", b"infinity", b"nan"):
         return 2
-    return 0 if v == 0.0 else (1 if v == 1.0 else 2)
-
-
-def header_ood(h):
-    """True if some list member ends in a number form outside the stand-in's domain (sign, exponent, inf, nan)."""
-    if h is None:
-        return False
-    for seg in h.split(b","):
-        m = EXOTIC_TAIL.search(seg)
-        if m and re.search(rb"(?i)[0-9]|inf|nan", m.group(0)):
-            return True
-    return False
+    sign, ip, fp, ex = m.groups()
+    digits = (ip + fp).lstrip(b"0")
+    if not digits:
+        return 0
+    e = int(ex) if ex else 0
+    mag = len(digits) + e - len(fp)          # 10^(mag-1) <= value < 10^mag
+    if mag > 3:
+        return 2
+    if mag < -50:
+        return 0
+    v = Fraction(int(digits)) * Fraction(10) ** (e - len(fp))
+    if v <= TWO_M150:
+        return 0
+    if sign == b"-":
+        return 2
+    return 1 if ONE_LO <= v <= ONE_HI else 2
 
 
 def ref_accept(ae):
-    """Reference reading of Accept-Encoding (RFC 7231 5.3.4): coding -> list of qualities (f32 classes)."""
-    out = {}
+    """Reference reading of Accept-Encoding (RFC 7231 5.3.4): list of (coding as written, f32 class of its weight)."""
+    out = []
     for member in ae.split(b","):
         member = member.strip(b" \t")
         if not member:
@@ -127,33 +170,38 @@ def ref_accept(ae):
         name, _, weight = member.partition(b";")
         k, _, v = weight.strip(b" \t").partition(b"=")
         q = f32class(v.strip(b" \t")) if k.strip(b" \t").lower() == b"q" else 1
-        out.setdefault(name.strip(b" \t"), []).append(1 if q is None else q)
+        out.append((name.strip(b" \t"), 1 if q is None else q))
     return out
 
 
 def label_acceptable(ae, label):
     """label in {gzip, br, zstd}: listed with some non-zero quality."""
-    acc = ref_accept(ae)
-    return any(q != 0 for q in acc.get(label, []))
+    return any(n == label and q != 0 for n, q in ref_accept(ae))
 
 
 def identity_refused(ae):
+    """identity (any case) listed with quality 0, or not listed at all while '*' is listed with quality 0"""
     acc = ref_accept(ae)
-    if b"identity" in acc:
-        return any(q == 0 for q in acc[b"identity"])
-    return any(q == 0 for q in acc.get(b"*", []))
+    ident = [q for n, q in acc if n.lower() == b"identity"]
+    if ident:
+        return any(q == 0 for q in ident)
+    return any(n == b"*" and q == 0 for n, q in acc)
 
 
 # ------------------------------------------------------------------------------------------
 # generators
 # ------------------------------------------------------------------------------------------
-CODINGS = [b"gzip", b"br", b"zstd", b"identity", b"deflate", b"compress", b"*", b"x-gzip", b"foo", b"GZIP", b"zstd", b"gzip", b"br"]
+CODINGS = [b"gzip", b"br", b"zstd", b"identity", b"deflate", b"compress", b"*", b"x-gzip", b"foo", b"GZIP", b"zstd", b"gzip", b"br", b"Identity"]
 QVALUES = [b"0", b"0.0", b"0.00", b"0.000", b"0.", b"0.5", b"0.001", b"0.999", b"1", b"1.0", b"1.000", b"1.", b".5", b".0",
            b"0.3", b"0.8", b"0.9", b"0.0000000000000000000000000000000000000000000001", b"0.99999999", b"1.00000001", b"2"]
 ZERO_Q = [b"0", b"0.0", b"0.000", b"0."]
+# texts outside the RFC's qvalue that f32::from_str accepts all the same (or just not)
+EXOTIC_Q = [b"0e0", b"-0", b"+0.0", b"1e-50", b"0e5", b"-0.0e-3", b"1e0", b"10e-1", b"+1", b"1e-3", b"5e-1", b"-1", b"inf", b"-inf",
+            b"NaN", b"Infinity", b"1e", b"e5", b"1e+", b"0x0", b"1_0", b"7e-46", b"8e-46", b"1e-999999999999", b"1e999999999999",
+            b"0.e0", b".e0", b"+.0", b"-.0e0", b"00", b"0000.0000e-0000"]
 
 
-def grammar_header(rng, strict=False, codings=None):
+def grammar_header(rng, strict=False, codings=None, exotic=0.0):
     """A header from the RFC 7231 grammar (OWS = SP / HTAB); returns (text, [(coding, f32 class)])."""
     n = rng.choice([1, 1, 2, 2, 3, 4, 6])
     parts, exp = [], []
@@ -163,9 +211,11 @@ def grammar_header(rng, strict=False, codings=None):
         t = c
         cls = 1
         if rng.random() < 0.65:
-            qv = rng.choice(ZERO_Q) if rng.random() < 0.3 else rng.choice(QVALUES)
+            r = rng.random()
+            qv = rng.choice(EXOTIC_Q) if r < exotic else rng.choice(ZERO_Q) if r < exotic + 0.3 else rng.choice(QVALUES)
             t = c + ows() + b";" + (ows() if not strict else rng.choice([b"", b" "])) + rng.choice([b"q=", b"q=", b"q=", b"Q="]) + qv
             cls = f32class(qv)
+            cls = 1 if cls is None else cls
         if i > 0:
             t = (rng.choice([b"", b" "]) if strict else ows()) + t
         parts.append(t + (b"" if strict else ows()))
@@ -173,13 +223,13 @@ def grammar_header(rng, strict=False, codings=None):
     return b",".join(parts), exp
 
 
-GARBAGE_ALPHABET = [bytes([c]) for c in b"gzipbrstdenty,,;;==qq  ..0015\t*-+eaf"] + ["å".encode(), "…".encode(), b"Q", b"9"]
+GARBAGE_ALPHABET = [bytes([c]) for c in b"gzipbrstdenty,,;;==qq  ..0015\t*-+eaf"] + ["å".encode(), "…".encode(), b"Q", b"9", b"I", b"*"]
 
 
 def garbage_header(rng, ascii_only=False):
     r = rng.random()
     if r < 0.4:
-        h, _ = grammar_header(rng)
+        h, _ = grammar_header(rng, exotic=0.1)
         h = bytearray(h)
         for _ in range(rng.randrange(1, 4)):
             pos = rng.randrange(len(h) + 1)
@@ -208,7 +258,8 @@ def garbage_header(rng, ascii_only=False):
     return out
 
 
-# content types: (text, expectation of the hand-written table: True compressible, False not, None unparsable)
+# content types: (text, what do_compress says of it today: True compressible, False not, None unparsable).  The table is
+# there to aim the generator at every branch; the spec oracle only uses ALREADY_COMPRESSED below
 CTYPES = [
     (b"text/html", True), (b"text/plain", True), (b"text/css", True), (b"TEXT/HTML", True), (b"text/html; charset=utf-8", True),
     (b"text/html;charset=utf-8", True), (b"application/json", True), (b"application/javascript", True), (b"application/xml", True),
@@ -223,48 +274,68 @@ CTYPES = [
     (b"garbage", None), (b"/x", None), (b"a b/c", None), (b"tex@t/html", None), (b"", None), (b"text/html\xff", None),
     (b"text/ht ml", None),
 ]
+# "already-compressed media types" of the property text: sending these compressed is a violation whatever do_compress says
+ALREADY_COMPRESSED = {b"image/png", b"image/jpeg", b"font/woff2", b"video/mp4", b"audio/ogg", b"application/pdf", b"application/zip",
+                      b"application/zstd", b"application/gzip"}
+# plainly compressible text types: a 406 for these although a listed coding applies is a violation
+PLAIN_TEXT = {b"text/html", b"text/plain", b"text/css", b"application/json", b"application/javascript", b"application/xml", b"image/svg+xml"}
 PREFS = [0, 1, 2, 3]  # None, Gzip, Brotli, Zstd
+DEFAULT_LEVELS = ((1, 3, 1), (4, 4, 2))   # (zstd, brotli, gzip) of CompressionOptions::oneshot() / cached()
+GET, HEAD, POST = 0, 1, 2
 
 
-def body_specs(tier):
-    specs = [("0", xl(xn(0), xb(b""))), ("1", xl(xn(0), xb(b"x"))), ("49", xl(xn(1), xn(97), xn(49))), ("50", xl(xn(1), xn(97), xn(50))),
-             ("51", xl(xn(2), xn(7), xn(51))), ("50r", xl(xn(2), xn(3), xn(50))), ("4Kz", xl(xn(1), xn(0), xn(4096))),
-             ("4Kr", xl(xn(2), xn(1), xn(4096))), ("300t", xl(xn(0), xb(b"<html><body>" + b"lorem ipsum dolor " * 16 + b"</body></html>")))]
-    return specs
+def body_specs():
+    return [("0", xl(xn(0), xb(b""))), ("1", xl(xn(0), xb(b"x"))), ("49", xl(xn(1), xn(97), xn(49))), ("50", xl(xn(1), xn(97), xn(50))),
+            ("51", xl(xn(2), xn(7), xn(51))), ("50r", xl(xn(2), xn(3), xn(50))), ("4Kz", xl(xn(1), xn(0), xn(4096))),
+            ("600r", xl(xn(2), xn(1), xn(600))), ("300t", xl(xn(0), xb(b"<html><body>" + b"lorem ipsum dolor " * 16 + b"</body></html>"))),
+            ("4Kr", xl(xn(2), xn(1), xn(4096)))]
 
 
-BIG_BODIES = [("1Mz", xl(xn(1), xn(0), xn(1048576)), 1048576), ("1Mr", xl(xn(2), xn(5), xn(1048576)), 1048576),
-              ("64Kr", xl(xn(2), xn(9), xn(65536)), 65536)]
-BODY_LEN = {"1Mz": 1048576, "1Mr": 1048576, "64Kr": 65536, "0": 0, "1": 1, "49": 49, "50": 50, "51": 51, "50r": 50, "4Kz": 4096, "4Kr": 4096, "300t": 12 + 18 * 16 + 14}
+# incompressible ones: a pseudo-random block doubled d times under xor masks (cheap for the model: no per-byte arithmetic)
+BIG_BODIES = [("64K+r", xl(xn(3), xn(11), xn(4097), xn(4))), ("64Kz", xl(xn(1), xn(97), xn(65536))), ("1M+z", xl(xn(1), xn(0), xn(1048593))),
+              ("1M+r", xl(xn(3), xn(5), xn(4099), xn(8))), ("200Kr", xl(xn(3), xn(13), xn(3200), xn(6))), ("64Kr", xl(xn(3), xn(9), xn(4096), xn(4)))]
+BODY_LEN = {"1M+z": 1048593, "1M+r": 4099 * 256, "64Kr": 65536, "64Kz": 65536, "64K+r": 4097 * 16, "200Kr": 3200 * 64, "0": 0, "1": 1, "49": 49,
+            "50": 50, "51": 51, "50r": 50, "4Kz": 4096, "4Kr": 4096, "600r": 600, "300t": 12 + 18 * 16 + 14}
 
 
-def req1(ae):
-    return xl(xn(0), xopt(None if ae is None else xb(ae)))
+def xsigned(v):
+    return xl(xn(1 if v < 0 else 0), xn(abs(v)))
 
 
-def reqn(ae, n):
-    return xl(xn(1), xopt(None if ae is None else xb(ae)), xn(n))
+def random_levels(rng, big=False):
+    """(zstd, brotli, gzip): every level the three encoders define (moderate ones on big bodies: the harness is a debug build)"""
+    if big:
+        return (rng.randrange(-3, 7), rng.randrange(0, 6), rng.randrange(0, 7))
+    return (rng.randrange(-7, 20), rng.randrange(0, 12), rng.randrange(0, 10))
 
 
-def pipe_case(body, ctype, compress, cache, p1, p2, reqs, meta):
-    """reqs: list of (ae, n) with n = 0 for a single request, n >= 2 for n concurrent ones."""
+def pipe_case(body, ctype, compress, cache, p1, p2, reqs, meta, hce=None, status=200, levels=DEFAULT_LEVELS):
+    """reqs: list of (ae, n[, method[, kind[, more field lines]]]): n = 0 a single request; n >= 2 that many concurrent ones (kind 1: joined on one
+    thread, kind 2: spawned on a multi-thread runtime)."""
     bname, bspec = body
-    x = xl(xl(bspec, xopt(None if ctype is None else xb(ctype[0])), xbool(compress), xbool(cache), xn(p1), xn(p2)),
-           xlist([req1(ae) if n == 0 else reqn(ae, n) for ae, n in reqs]))
+    norm = []
+    xreqs = []
+    for r in reqs:
+        ae, n = r[0], r[1]
+        method = r[2] if len(r) > 2 else GET
+        kind = (r[3] if len(r) > 3 else 1) if n else 0
+        more = r[4] if len(r) > 4 else []          # further Accept-Encoding field lines (only with a first one)
+        norm.append((ae, n, method, kind))
+        xreqs.append(xl(xn(kind), xopt(None if ae is None else xb(ae)), xn(method), xn(n if n else 1), xlist([xb(v) for v in more])))
+    lv = xl(xsigned(levels[0][0]), xn(levels[0][1]), xn(levels[0][2]), xsigned(levels[1][0]), xn(levels[1][1]), xn(levels[1][2]))
+    x = xl(xl(bspec, xopt(None if ctype is None else xb(ctype[0])), xbool(compress), xbool(cache), xn(p1), xn(p2),
+              xopt(None if hce is None else xb(hce)), xn(status), lv), xlist(xreqs))
     m = dict(meta)
-    m.update({"body": bname, "blen": BODY_LEN[bname], "ctype": ctype, "compress": compress, "cache": cache, "reqs": reqs, "prefs": (p1, p2)})
+    m.update({"body": bname, "blen": BODY_LEN[bname], "ctype": ctype, "compress": compress, "cache": cache, "reqs": norm, "prefs": (p1, p2),
+              "hce": hce, "status": status, "levels": levels})
     if ctype is None and BODY_LEN.get(bname, 1) > 0:
-        m["ood"] = True          # content type would be sniffed from the bytes (not modelled)
-    if any(header_ood(ae) for ae, _ in reqs):
-        m["ood"] = True
-    return Case("neg.pipe", x, None, m)
+        m["ood"] = True          # content type would be sniffed from the bytes (not modelled; the spec oracles still run)
+    return Case("neg.pipe", x, "neg.spec", m)
 
 
 def lh_case(h, meta, profile):
     m = dict(meta)
     m["header"] = h
-    if header_ood(h):
-        m["ood"] = True
     return Case("neg.list_header", xb(h), None, m, profile)
 
 
@@ -275,41 +346,85 @@ DIRECTED_AE = [
     b"identity, gzip;q=0", b"gzip, gzip;q=0", b"gzip;q=0, gzip", b"deflate, compress", b"GZIP", b"gzip;Q=0", b"br;q=0.001", b"zstd;q=1.000",
     b"gzip\xff", b"0", b"0,gzip", b"gzip;q=0.0000000000000000000000000000000000000000000001", b"identity;q=0.0000000000000000000000000000000000000000000001",
     b"gzip;q= 0", b"gzip;q=0;x=1", b"gzip;x=1;q=0", b" gzip", b"gzip ", b",gzip", b"gzip,", b"gzip,,br", b"zstd;q=0,br;q=0,gzip;q=0,identity;q=0",
+    # refusal of identity in its other spellings
+    b"Identity;q=0", b"IDENTITY;q=0, br", b"*;q=0, identity", b"*;q=0, identity;q=0.5", b"*;q=0, Identity;q=1", b"*;q=0.0, deflate",
+    b"identity;q=0, identity", b"*;q=0, zstd;q=0, br", b"*;q=1, identity;q=0",
+    # quality texts outside the RFC's qvalue that f32::from_str accepts
+    b"gzip;q=0e0", b"gzip;q=-0, br", b"identity;q=-0", b"identity;q=0e0, gzip;q=+0.0", b"gzip;q=1e-50, br;q=1e-3", b"identity;q=1e-50",
+    b"gzip;q=inf", b"gzip;q=-1", b"gzip;q=NaN", b"identity;q=nan", b"gzip;q=1e", b"gzip;q=7e-46, br;q=8e-46",
 ]
 
 
 def generate(rng, tier):
     cases = []
     quick = tier == "quick"
-    bodies = body_specs(tier)
+    bodies = body_specs()
+    B49, B50, B4Kz, B600r, B300, B4Kr = bodies[2], bodies[3], bodies[6], bodies[7], bodies[8], bodies[9]
     text = (b"text/html", True)
-    # ---- pipeline: directed Accept-Encoding x sizes around the floor ------------------------------------------------------
+    # ---- pipeline: directed Accept-Encoding x sizes around the floor, handler opted in / out -------------------------------
     for ae in DIRECTED_AE:
-        for b in bodies if not quick else [bodies[2], bodies[3], bodies[7]]:
+        for b in bodies if not quick else [B49, B50, B600r]:
             cases.append(pipe_case(b, text, True, True, 3, 3, [(ae, 0), (ae, 0)], {"kind": "pipe/directed", "grammar": False}))
+        cases.append(pipe_case(B300, text, False, rng.random() < 0.5, 3, 3, [(ae, 0)], {"kind": "pipe/directed-optout", "grammar": False}))
     # every content type x a compressible-size body
     for ct in CTYPES:
-        for ae in (b"gzip, br, zstd", b"identity;q=0, gzip"):
-            cases.append(pipe_case(bodies[7], ct, True, rng.random() < 0.5, rng.choice(PREFS), rng.choice(PREFS), [(ae, 0)],
+        for ae in (b"gzip, br, zstd", b"identity;q=0, gzip", b"*;q=0, br"):
+            cases.append(pipe_case(B600r, ct, True, rng.random() < 0.5, rng.choice(PREFS), rng.choice(PREFS), [(ae, 0)],
                                    {"kind": "pipe/ctype", "grammar": True}))
     # every preferred algorithm x every subset of codings
     for p in PREFS:
         for mask in range(8):
             ae = b", ".join(c for i, c in enumerate([b"gzip", b"br", b"zstd"]) if mask >> i & 1)
             for cache in (True, False):
-                cases.append(pipe_case(bodies[6], text, True, cache, p, p, [(ae, 0), (ae, 0)], {"kind": "pipe/pref", "grammar": True}))
-    # memoisation: an entry created by an identity-only request, then n concurrent first requests of one coding, then again
+                cases.append(pipe_case(B4Kz, text, True, cache, p, p, [(ae, 0), (ae, 0)], {"kind": "pipe/pref", "grammar": True}))
+                if mask:
+                    cases.append(pipe_case(B300, text, True, cache, p, p, [(b"identity;q=0, " + ae, 0)], {"kind": "pipe/pref", "grammar": True}))
+    # every level of every encoder (cached and one-shot option sets), decoded by the standard decoder
+    levels = [(z, b, g) for z, b, g in zip(list(range(-7, 23)), [i % 12 for i in range(30)], [i % 10 for i in range(30)])]
+    for i, lv in enumerate(levels if not quick else levels[::2] + [levels[-1]]):
+        cache = i % 2 == 0
+        # levels above 19 only on the small bodies (zstd's ultra levels allocate a lot)
+        b = B300 if lv[0] > 19 else rng.choice([B4Kz, B4Kr, B300])
+        cases.append(pipe_case(b, text, True, cache, 0, 0, [(b"zstd", 0), (b"br", 0), (b"gzip", 0), (b"gzip, br, zstd", 0)],
+                               {"kind": "pipe/levels", "grammar": True}, levels=(lv, lv)))
+    # memoisation: an entry created by an identity-only request, then n concurrent first requests of one coding (the memo
+    # cell is cold, the entry is not), then again; joined on one thread and spawned on a multi-thread runtime
     for coding in (b"gzip", b"br", b"zstd"):
         for n in (2, 8, 32) if quick else (2, 3, 8, 32, 64):
-            for b in (bodies[6], bodies[7]):
-                cases.append(pipe_case(b, text, True, True, 3, 3, [(b"identity", 0), (coding, n), (coding, 0), (b"gzip, br, zstd", 2)],
-                                       {"kind": "pipe/concurrent", "grammar": True}))
+            for b in (B4Kz, B600r if quick else B4Kr):
+                for kind in (1, 2):
+                    cases.append(pipe_case(b, text, True, True, 3, 3,
+                                           [(b"identity", 0), (coding, n, GET, kind), (coding, 0), (b"gzip, br, zstd", 2, GET, kind)],
+                                           {"kind": "pipe/concurrent" + ("-threads" if kind == 2 else ""), "grammar": True}))
+                # no entry yet: every one of the n requests misses the cache
                 cases.append(pipe_case(b, text, True, True, 0, 0, [(coding, n), (coding, n)], {"kind": "pipe/concurrent", "grammar": True}))
+    # methods, statuses, a content-encoding header of the handler's own
+    for status in (200, 404, 403, 500):
+        for hce in (None, b"identity", b"gzip"):
+            for b in (B600r, bodies[0]):
+                cases.append(pipe_case(b, text, True, True, 3, 3,
+                                       [(b"gzip", 0, HEAD), (b"gzip", 0, GET), (b"br", 0, POST), (b"gzip, br", 0, GET), (None, 0, HEAD),
+                                        (b"identity;q=0", 0, HEAD)],
+                                       {"kind": "pipe/method-status", "grammar": True}, hce=hce, status=status))
+    # a second (third) Accept-Encoding field line: the code reads the first one only, and so do model and oracles
+    for first, more in ((b"gzip", [b"gzip;q=0"]), (b"gzip;q=0", [b"gzip"]), (b"br", [b"identity;q=0"]), (b"identity;q=0", [b"br"]),
+                        (b"deflate", [b"zstd", b"br"]), (b"identity;q=0, zstd", [b"zstd;q=0", b"*;q=0"])):
+        for cache in (True, False):
+            cases.append(pipe_case(B300, text, True, cache, 3, 3, [(first, 0, GET, 0, more), (first, 0, GET, 0, more)],
+                                   {"kind": "pipe/field-lines", "grammar": True}))
+    # big bodies: every coding, incompressible and highly compressible, cached and one-shot
+    big = BIG_BODIES if not quick else BIG_BODIES[:5]
+    for i, b in enumerate(big):
+        for cache in (True, False) if not quick else (i % 2 == 0,):
+            cases.append(pipe_case(b, text, True, cache, 0, 0, [(b"gzip", 0), (b"br", 2), (b"zstd", 0), (b"gzip", 0, HEAD)],
+                                   {"kind": "pipe/big", "grammar": True}, levels=(random_levels(rng, True), random_levels(rng, True))))
     # random scenarios
     nrand = 260 if quick else 6000
     for _ in range(nrand):
-        b = rng.choice(bodies)
+        b = rng.choice(bodies[:9] if quick or rng.random() < 0.9 else bodies)
         ct = rng.choice(CTYPES) if rng.random() < 0.45 else rng.choice(CTYPES[:6])
+        if rng.random() < 0.04:
+            ct = None            # sniffed from the bytes: outside the model, judged by the spec oracles only
         reqs = []
         grammar = True
         for _ in range(rng.choice([1, 2, 2, 3, 4])):
@@ -317,22 +432,34 @@ def generate(rng, tier):
             if r < 0.08:
                 ae = None
             elif r < 0.70:
-                ae, _ = grammar_header(rng, codings=[b"gzip", b"br", b"zstd", b"identity", b"*", b"deflate", b"gzip", b"br", b"zstd"])
+                ae, _ = grammar_header(rng, codings=[b"gzip", b"br", b"zstd", b"identity", b"*", b"deflate", b"gzip", b"br", b"zstd", b"Identity"],
+                                       exotic=0.15)
             elif r < 0.80:
                 ae = rng.choice(DIRECTED_AE)
                 grammar = False
             else:
                 ae = garbage_header(rng, ascii_only=rng.random() < 0.8)
                 grammar = False
-            reqs.append((ae, 0 if rng.random() < 0.85 else rng.choice([2, 3, 5])))
+            method = rng.choice([GET, GET, GET, HEAD, POST])
+            if rng.random() < 0.85:
+                reqs.append((ae, 0, method))
+            else:
+                # spawned groups only once the page has its entry (whether a late task finds the entry another one has just
+                # inserted is a race the model does not resolve)
+                reqs.append((ae, rng.choice([2, 3, 5]), method, 2 if reqs and rng.random() < 0.5 else 1))
         cases.append(pipe_case(b, ct, rng.random() < 0.85, rng.random() < 0.6, rng.choice(PREFS), rng.choice(PREFS), reqs,
-                               {"kind": "pipe/random", "grammar": grammar}))
-    if not quick:
-        for name, spec, n in BIG_BODIES:
-            for p in PREFS:
-                for cache in (True, False):
-                    cases.append(pipe_case((name, spec), text, True, cache, p, p, [(b"gzip, br, zstd", 0), (b"gzip", 0), (b"br", 2), (b"zstd", 0)],
-                                           {"kind": "pipe/big", "grammar": True}))
+                               {"kind": "pipe/random", "grammar": grammar},
+                               hce=rng.choice([None, None, None, None, b"identity", b"gzip", b"br"]),
+                               status=rng.choice([200, 200, 200, 200, 404, 403, 500, 201, 410]),
+                               levels=(random_levels(rng), random_levels(rng)) if rng.random() < 0.5 else DEFAULT_LEVELS))
+    # ---- the memo cell under real parallelism: many rounds of n tasks released together on worker threads ----------------------
+    for coding in (0, 1, 2):
+        for rounds, n, blen in ((400, 8, 64), (100, 16, 3000)) if quick else ((60000 if coding == 2 else 20000, 16, 50), (3000, 8, 64), (500, 16, 20000)):
+            cases.append(Case("neg.stress", xl(xn(rounds), xn(n), xn(blen), xn(coding)), None, {"kind": "stress/memo-cell"}))
+    # ---- streaming responses (a future attached): never a 406, the future is kept -------------------------------------------------
+    for ae in (None, b"gzip", b"identity;q=0", b"*;q=0", b"Identity;q=0, gzip", b"identity;q=0.5", b"br, identity;q=0"):
+        for with_len in (False, True):
+            cases.append(Case("neg.stream", xl(xopt(None if ae is None else xb(ae)), xbool(with_len)), None, {"kind": "stream"}))
     # ---- mime / do_compress directly ----------------------------------------------------------------------------------------
     for ct, _ in CTYPES:
         cases.append(Case("neg.mime", xb(ct), None, {"kind": "mime/table", "ctype": ct}))
@@ -350,8 +477,10 @@ def generate(rng, tier):
         if h is not None and b"\xff" not in h:
             for prof in PROFILES:
                 cases.append(lh_case(h, {"kind": "lh/directed"}, prof))
+    for qv in EXOTIC_Q + QVALUES:
+        cases.append(lh_case(b"gzip;q=" + qv + b", br", {"kind": "lh/quality-text"}, rng.choice(PROFILES)))
     for _ in range(1500 if quick else 40000):
-        h, exp = grammar_header(rng, strict=rng.random() < 0.3)
+        h, exp = grammar_header(rng, strict=rng.random() < 0.3, exotic=0.15)
         cases.append(lh_case(h, {"kind": "lh/grammar", "expect": exp}, rng.choice(PROFILES)))
     for _ in range(1500 if quick else 40000):
         cases.append(lh_case(garbage_header(rng), {"kind": "lh/garbage"}, rng.choice(PROFILES)))
@@ -359,7 +488,11 @@ def generate(rng, tier):
 
 
 TOKEN = rb"[!#$%&'*+\-.^_`|~0-9A-Za-z]+"
-MEMBER = rb"[ \t]*" + TOKEN + rb"(?:[ \t]*;[ \t]*[qQ]=(?:\d+\.?\d*|\.\d+))?[ \t]*"
+F32_INNER = rb"(?i:[+-]?(?:inf|infinity|nan|(?:\d+\.?\d*|\.\d+)(?:e[+-]?\d+)?))"
+# weights: the RFC's qvalue and every other text f32::from_str accepts
+# ("Q=" is read differently from "q=" by list_header: the weight then starts at the first digit or '.'; with a plain decimal
+# that is the same thing, so the reference grammar has "Q=" with plain decimals only)
+MEMBER = rb"[ \t]*" + TOKEN + rb"(?:[ \t]*;[ \t]*(?:q=" + F32_INNER + rb"|Q=(?:\d+\.?\d*|\.\d+)))?[ \t]*"
 GRAMMAR = re.compile(MEMBER + rb"(?:," + MEMBER + rb")*\Z")
 
 
@@ -367,7 +500,7 @@ NUMBERISH = re.compile(rb"[0-9.+\-eEiInNfFaAtTyY]+\Z")
 
 
 def in_grammar(h):
-    """RFC 7231 #( codings [ weight ] ) with OWS, non-empty members, weights any plain decimal; coding names that
+    """RFC 7231 #( codings [ weight ] ) with OWS, non-empty members, weights any text f32::from_str accepts; coding names that
     consist only of characters of a number (digits . + - e and the letters of inf/nan/infinity) are excluded: a
     member without weight is given the f32 value of the text before it (list_header_wf states the same condition)."""
     if h is None or GRAMMAR.match(h) is None:
@@ -389,17 +522,19 @@ def fill_meta(c):
     m = c.meta
     if c.comp == "neg.list_header" and "header" not in m:
         m["header"] = bytes(c.x[1])
-        m["ood"] = header_ood(m["header"])
     if c.comp == "neg.pipe" and "reqs" not in m:
         cfg, reqs = c.x[1]
-        body, ct, compress, cache, p1, p2 = cfg[1]
+        body, ct, compress, cache, p1, p2, hce, status, lv = cfg[1]
         kind = body[1][0][1]
-        m["blen"] = len(body[1][1][1]) if kind == 0 else body[1][2][1]
+        m["blen"] = len(body[1][1][1]) if kind == 0 else body[1][2][1] * (2 ** body[1][3][1] if kind == 3 else 1)
         ctv = bytes(ct[1][0][1]) if ct[1] else None
         m["ctype"] = None if ctv is None else (ctv, dict(CTYPES).get(ctv, "unknown"))
         m["compress"] = bool(compress[1])
-        m["reqs"] = [((bytes(r[1][1][1][0][1]) if r[1][1][1] else None), (r[1][2][1] if r[1][0][1] == 1 else 0)) for r in reqs[1]]
-        m["ood"] = (ctv is None and m["blen"] > 0) or any(header_ood(ae) for ae, _ in m["reqs"])
+        m["cache"] = bool(cache[1])
+        m["hce"] = bytes(hce[1][0][1]) if hce[1] else None
+        m["status"] = status[1]
+        m["reqs"] = [((bytes(r[1][1][1][0][1]) if r[1][1][1] else None), (r[1][3][1] if r[1][0][1] else 0), r[1][2][1], r[1][0][1]) for r in reqs[1]]
+        m["ood"] = ctv is None and m["blen"] > 0
     return m
 
 
@@ -407,11 +542,119 @@ def out_of_domain(c, i):
     return i.startswith("(L (N 96)") or bool(fill_meta(c).get("ood"))
 
 
+ORACLE_ON_OOD = True      # the spec oracles need no model: they also judge the cases the model does not cover
+
+
 # ------------------------------------------------------------------------------------------
-# specification oracles on the implementation's output (independent of the model)
+# correspondence: compared by what the property can see where it does not fix the text
+# ------------------------------------------------------------------------------------------
+RELEVANT = (b"gzip", b"br", b"zstd", b"*")
+
+
+def _lh_view(s, header):
+    """list_header's result; outside the grammar only what clone_preferred can tell apart: how many values there are and, in
+    order, those naming a coding the negotiation knows (gzip, br, zstd, identity in any case, *) with their quality class"""
+    v = xparse(s)
+    if v[0] != "L" or len(v[1]) != 2 or v[1][0] != ("N", 0):
+        return s
+    got = [(bytes(e[1][0][1]), e[1][1][1]) for e in v[1][1][1]]
+    if in_grammar(header):
+        return got
+    return (len(got), [(n, q) for n, q in got if n in RELEVANT or n.lower() == b"identity"])
+
+
+def _pipe_view(c, s):
+    """the replies; `reused` is left out for a concurrent group that arrives before the page has a cache entry: whether a late
+    request of the group already finds the entry an early one has inserted (and with it that one's compressed bytes) depends on
+    the scheduling of the group (tokio's cooperative budget can suspend a request before its cache lookup); the model takes the
+    schedule in which they all miss"""
+    m = fill_meta(c)
+    groups = _replies(xparse(s))
+    has_entry = False
+    out = []
+    for (ae, n, method, kind), grp in zip(m["reqs"], groups):
+        on_entry = m["cache"] and cacheable_status(m["status"]) and method in (GET, HEAD)
+        if n >= 2 and on_entry and not has_entry:
+            grp = [r if len(r) == 1 else r[:6] + (None,) for r in grp]
+        has_entry = has_entry or on_entry
+        out.append(grp)
+    return out
+
+
+def compare(c, i, m):
+    if i == m:
+        return True
+    try:
+        if c.comp == "neg.list_header":
+            h = fill_meta(c)["header"]
+            return _lh_view(i, h) == _lh_view(m, h)
+        if c.comp == "neg.pipe":
+            return _pipe_view(c, i) == _pipe_view(c, m)
+    except Exception:
+        return False
+    return False
+
+
+# ------------------------------------------------------------------------------------------
+# specification oracles on the implementation's output
 # ------------------------------------------------------------------------------------------
 def _b(x):
     return x[1]
+
+
+def _replies(v):
+    """[[(status, label, decode_ok, decoded_eq, dlen, raw_is_identity, reused) | (406,)]]"""
+    out = []
+    for grp in v[1]:
+        rs = []
+        for r in grp[1]:
+            f = r[1]
+            if len(f) == 1:
+                rs.append((f[0][1],))
+            elif len(f) == 7:
+                rs.append((f[0][1], bytes(_b(f[1][1][0])) if f[1][1] else None) + tuple(x[1] for x in f[2:]))
+            else:
+                raise ValueError("bad reply")
+        out.append(rs)
+    return out
+
+
+def spec_ok(c, i, s):
+    """the executable Coq specification (spec_verdict, tied to the model by serve_meets_spec) on the implementation's replies"""
+    if c.comp != "neg.pipe":
+        return i == s
+    try:
+        vi, vs = xparse(i), xparse(s)
+        if vi == ("L", [("N", 2)]):
+            return False
+        groups = _replies(vi)
+        verdicts = [(g[1][0][1], g[1][1][1], [bytes(a[1]) for a in g[1][2][1]]) for g in vs[1]]
+    except Exception:
+        return False
+    if len(groups) != len(verdicts):
+        return False
+    for rs, (must406, identity_ok, algs) in zip(groups, verdicts):
+        for r in rs:
+            if r[0] == 406:
+                if not must406:
+                    c.meta.setdefault("why", "406 although the specification allows identity=%r codings=%r" % (bool(identity_ok), algs))
+                    return False
+            elif must406:
+                c.meta.setdefault("why", "the specification demands 406 (identity forbidden, nothing else applies); sent %r" % (r[1],))
+                return False
+            elif r[5] or r[1] not in (b"gzip", b"br", b"zstd"):
+                # the identity bytes were sent: no coding applied (an empty body keeps whatever label the handler set)
+                if not identity_ok:
+                    c.meta.setdefault("why", "identity sent although the client forbids it")
+                    return False
+            elif r[1] not in algs:
+                c.meta.setdefault("why", "coding %r sent, the specification allows %r" % (r[1], algs))
+                return False
+    return True
+
+
+def cacheable_status(s):
+    return not (400 <= s <= 403 or 405 <= s <= 409 or 411 <= s <= 499 or 100 <= s <= 199 or s == 304)
 
 
 def extra_oracle(c, i):
@@ -421,6 +664,8 @@ def extra_oracle(c, i):
         return "unparsable harness output"
     if v == ("L", [("N", 2)]):
         return "panic"
+    if i.startswith("(L (N 96)") or i.startswith("(L (N 99)"):
+        return None
     if c.comp == "neg.list_header":
         if v[0] != "L" or len(v[1]) != 2 or v[1][0] != ("N", 0):
             return "list_header did not return"
@@ -437,6 +682,21 @@ def extra_oracle(c, i):
         return None
     if c.comp == "neg.mime":
         return None
+    if c.comp == "neg.stream":
+        if v[0] != "L" or len(v[1]) != 4 or v[1][0] != ("N", 200) or v[1][1] != ("N", 1):
+            return "a streaming response was not passed on as it is (status 200, future attached): %s" % i
+        return None
+    if c.comp == "neg.stress":
+        try:
+            anomalies, total, wrong = (x[1] for x in v[1])
+        except Exception:
+            return "bad output"
+        if wrong:
+            return "%d of %d replies to concurrent requests for a cold memo cell are not 200 / mislabelled / do not decode to the body" % (wrong, total)
+        if anomalies:
+            return ("%d of %d replies to concurrent requests for a cold memo cell carry another buffer than the first reply: "
+                    "the cell was written more than once" % (anomalies, total))
+        return None
     if c.comp != "neg.pipe":
         return None
     if v[0] != "L":
@@ -444,37 +704,52 @@ def extra_oracle(c, i):
     m = fill_meta(c)
     blen = m["blen"]
     ct = m["ctype"]
-    for (ae, n), grp in zip(m["reqs"], v[1]):
-        for r in grp[1]:
-            f = r[1]
-            status = f[0][1]
-            if status == 406:
-                if ae is None or not identity_refused(ae):
-                    if ae is None or in_grammar(ae):
-                        return "406 although identity is not refused by %r" % (ae,)
+    hce = m["hce"]
+    try:
+        groups = _replies(v)
+    except Exception:
+        return "bad output"
+    if len(groups) != len(m["reqs"]):
+        return "bad output"
+    memoised = set()        # codings an earlier request of this page has left in its cache entry
+    for (ae, n, method, kind), grp in zip(m["reqs"], groups):
+        if len(grp) != (n or 1):
+            return "%d replies to %d requests" % (len(grp), n or 1)
+        on_entry = m["cache"] and cacheable_status(m["status"]) and method in (GET, HEAD)
+        wf = ae is None or in_grammar(ae)
+        refused = ae is not None and identity_refused(ae)
+        applies = [a for a in (b"zstd", b"br", b"gzip") if ae is not None and label_acceptable(ae, a)]
+        sent = set()
+        for r in grp:
+            if r[0] == 406:
+                if wf and not refused:
+                    return "406 although identity is not refused by %r" % (ae,)
+                if wf and applies and blen >= 50 and m["compress"] and ct is not None and ct[0] in PLAIN_TEXT:
+                    return "406 although %r applies (Accept-Encoding %r, %d bytes of %s)" % (applies, ae, blen, ct[0].decode())
                 continue
-            if status != 200 or len(f) != 7:
-                return "unexpected status %r" % (status,)
-            label = bytes(_b(f[1][1][0])) if f[1][1] else None
-            decode_ok, decoded_eq, dlen, raw_is_identity, same = f[2][1], f[3][1], f[4][1], f[5][1], f[6][1]
+            if r[0] != m["status"]:
+                return "status %r, the handler's is %r" % (r[0], m["status"])
+            _, label, decode_ok, decoded_eq, dlen, raw_is_identity, reused = r
             if not decode_ok:
                 return "body labelled %r is not a complete stream for the standard decoder (Accept-Encoding %r)" % (label, ae)
             if not decoded_eq or dlen != blen:
                 return "body labelled %r does not decode to the identity body (Accept-Encoding %r)" % (label, ae)
-            if not same:
-                return "a later reply labelled %r carries other bytes than the first one" % (label,)
-            if label not in (None, b"identity", b"gzip", b"br", b"zstd"):
-                return "unknown content-encoding %r" % (label,)
-            if label in (None, b"identity"):
+            if blen == 0:
+                if label != hce:
+                    return "empty body: content-encoding %r, the handler set %r" % (label, hce)
+                continue
+            if label not in (b"identity", b"gzip", b"br", b"zstd"):
+                return "content-encoding %r on a non-empty body" % (label,)
+            if label == b"identity":
                 if not raw_is_identity:
                     return "identity-labelled body is not the identity body"
-                if (label is None) != (blen == 0):
-                    return "content-encoding presence does not follow the empty-body rule"
+                if wf and refused:
+                    return "identity sent although %r forbids it" % (ae,)
                 continue
             # compressed
             if ae is None:
                 return "compressed (%r) without Accept-Encoding" % label
-            if in_grammar(ae):
+            if wf:
                 if not label_acceptable(ae, label):
                     return "coding %r is not listed with non-zero quality in %r" % (label, ae)
             elif label not in ae:
@@ -483,48 +758,55 @@ def extra_oracle(c, i):
                 return "body of %d bytes (< 50) sent as %r" % (blen, label)
             if not m["compress"]:
                 return "handler opted out of compression but the body was sent as %r" % label
-            if ct is None or ct[1] not in (True, "unknown"):
-                return "content type %r is not compressible but the body was sent as %r" % (ct, label)
+            if ct is not None and ct[0].split(b";")[0].strip().lower() in ALREADY_COMPRESSED:
+                return "already-compressed media type %r sent as %r" % (ct[0], label)
+            if on_entry and label in memoised and not reused:
+                return ("a later request of the cached page was sent %r bytes that are not the ones memoised in the cache entry "
+                        "by an earlier request" % label)
+            if on_entry:
+                sent.add(label)
+        memoised |= sent
     return None
 
 
 def extra_coverage(cases, impl, model, spec):
-    """what the run exercised: replies per label, 406s, decoded streams, concurrent groups, out-of-domain reasons"""
-    labels, decoded, n406, groups, maxn, big = {}, 0, 0, 0, 0, 0
-    ood_q, ood_ct = 0, 0
+    """what the run exercised: replies per label, 406s, decoded streams, concurrent groups, big bodies, levels"""
+    labels, decoded, n406, groups, tgroups, maxn, big, reused = {}, 0, 0, 0, 0, 0, 0, 0
+    statuses, methods, lvls, hces, ood_ct = {}, {}, set(), 0, 0
     for c in cases:
         i = impl.get(c.id)
-        if i is None:
+        if i is None or c.comp != "neg.pipe" or i.startswith("(L (N 9") or i.startswith("(L (N 2)"):
             continue
         m = fill_meta(c)
-        if m.get("ood"):
-            if c.comp == "neg.pipe" and m.get("ctype") is None:
-                ood_ct += 1
-            else:
-                ood_q += 1
-            continue
-        if c.comp != "neg.pipe" or i.startswith("(L (N 96)") or i.startswith("(L (N 2)"):
-            continue
+        ood_ct += bool(m.get("ood"))
         try:
-            v = xparse(i)
+            gs = _replies(xparse(i))
         except Exception:
             continue
         big += m["blen"] >= 65536
-        for (ae, n), grp in zip(m["reqs"], v[1]):
+        hces += m["hce"] is not None
+        if "levels" in m:
+            lvls.add(m["levels"])
+        for (ae, n, method, kind), grp in zip(m["reqs"], gs):
+            methods[("GET", "HEAD", "POST")[method]] = methods.get(("GET", "HEAD", "POST")[method], 0) + len(grp)
             if n:
                 groups += 1
+                tgroups += kind == 2
                 maxn = max(maxn, n)
-            for r in grp[1]:
-                f = r[1]
-                if f[0][1] == 406:
+            for r in grp:
+                statuses[str(r[0])] = statuses.get(str(r[0]), 0) + 1
+                if r[0] == 406:
                     n406 += 1
-                elif len(f) == 7:
-                    lab = bytes(f[1][1][0][1]).decode() if f[1][1] else "(none)"
+                else:
+                    lab = r[1].decode("latin-1") if r[1] is not None else "(none)"
                     labels[lab] = labels.get(lab, 0) + 1
-                    decoded += lab in ("gzip", "br", "zstd") and f[2][1] == 1 and f[3][1] == 1
-    return {"replies_by_content_encoding": labels, "replies_406": n406, "compressed_replies_decoded_to_identity_body": decoded,
-            "concurrent_groups": groups, "max_concurrent_requests": maxn, "cases_with_body_of_64KiB_or_more": big,
-            "out_of_domain_exotic_quality_text": ood_q, "out_of_domain_sniffed_content_type": ood_ct}
+                    decoded += lab in ("gzip", "br", "zstd") and r[2] == 1 and r[3] == 1
+                    reused += r[6]
+    return {"replies_by_content_encoding": labels, "replies_406": n406, "replies_by_status": statuses, "replies_by_method": methods,
+            "compressed_replies_decoded_to_identity_body": decoded, "replies_carrying_the_memoised_buffer": reused,
+            "concurrent_groups": groups, "concurrent_groups_on_worker_threads": tgroups, "max_concurrent_requests": maxn,
+            "cases_with_body_of_64KiB_or_more": big, "distinct_level_settings": len(lvls), "cases_with_handler_content_encoding": hces,
+            "out_of_domain_sniffed_content_type": ood_ct}
 
 
 def signature(c, m):
@@ -534,11 +816,32 @@ def signature(c, m):
         return None
     if c.comp == "neg.list_header":
         return m[:60] if "(N 0))" in m or "(N 2))" in m else None
+    if c.comp in ("neg.stress", "neg.stream"):
+        return None
     return m[:40]
 
 
 def directed(rng, mismatches):
-    return generate(rng, "quick")
+    """after a broken proof / correspondence: the pages of the disagreeing cases under every directed Accept-Encoding value, then a
+    fresh quick stream; every pipe case carries the Coq specification, so a failing input is reported as such"""
+    more = []
+    bodies = body_specs()
+    seen = set()
+    for c in mismatches:
+        if c.comp != "neg.pipe":
+            continue
+        m = fill_meta(c)
+        key = (m["blen"], m["ctype"], m["compress"], m["cache"])
+        if key in seen or len(seen) >= 6:
+            continue
+        seen.add(key)
+        body = next((b for b in bodies if BODY_LEN[b[0]] == m["blen"]), bodies[7])
+        aes = [r[0] for r in m["reqs"]]
+        for ae in aes + DIRECTED_AE:
+            more.append(pipe_case(body, m["ctype"], m["compress"], m["cache"], rng.choice(PREFS), rng.choice(PREFS),
+                                  [(b"gzip, br, zstd", 0), (ae, 0), (ae, 0)], {"kind": "pipe/directed-search", "grammar": False},
+                                  hce=m["hce"], status=m["status"]))
+    return more + generate(rng, "quick")
 
 
 def describe(c):
@@ -547,54 +850,91 @@ def describe(c):
     return d
 
 
-RULE = ("(a) neg.pipe: the real kvarn::handle_cache, in process, on one page per case: body in {0, 1, 49, 50, 51 bytes, 300 bytes of text, 4 KiB zeros, "
-        "4 KiB pseudo-random; thorough: + 64 KiB, 1 MiB zeros, 1 MiB pseudo-random} x 46 content types (every branch of do_compress, unparsable, "
-        "non-ASCII) x handler opt-out x cached / one-shot option sets x the four preferred algorithms (independently for both sets) x 1-4 requests "
-        "(single, or n = 2..64 concurrent ones joined on one thread) with Accept-Encoding from the RFC 7231 grammar (codings, q in {0, 0.0, 0.000, 0., "
-        "0.5, 0.001, 0.999, 1, 1.0, 1.000, .5, 1e-46 written out, ...}, OWS, duplicates, unknown codings, *), mutated / random garbage, non-ASCII "
-        "bytes, none.  The harness decodes every reply body with the standard decoder of the algorithm named in content-encoding (flate2 MultiGzDecoder, "
-        "brotli BrotliDecompress, zstd decode_all) and reports status, label, complete-stream, decoded == identity body (also == CacheReply.identity_body), "
-        "length, bytes == identity bytes, bytes == bytes of the first reply with this label; the extracted model predicts the same tuple (its encoders are "
-        "stand-ins: only label / status / equalities are compared).  (b) neg.list_header: kvarn_utils::parse::list_header directly, dev and nochk profiles, "
-        "on grammar, mutated and random UTF-8 text, compared with the byte-level model (qualities by class: == 0.0, == 1.0, other).  (c) neg.mime: "
-        "Mime::from_str + comprash::do_compress vs the model's stand-in parser and do_compress.  Spec oracles independent of the model (extra_oracle): "
-        "every 200 reply decodes as a complete stream to exactly the identity body; its label is identity / absent(empty body) or a coding listed with "
-        "non-zero quality per a reference reading of Accept-Encoding (split on ',', strip OWS, weight after ';'); bodies < 50 bytes, opted-out handlers and "
-        "content types marked not compressible in a hand-written table are sent as identity; 406 only if identity is refused per the reference reading; "
-        "repeated replies with one label carry the same bytes; list_header on a grammar header equals the reference parse.  "
+RULE = ("(a) neg.pipe: the real kvarn::handle_cache, in process, on one page per case: body in {0, 1, 49, 50, 51 bytes, 300 bytes of text, 600 "
+        "pseudo-random bytes, 4 KiB zeros / pseudo-random; 64 KiB + 16 and 1 MiB + 768 incompressible (a pseudo-random block under 2^d xor masks), "
+        "64 KiB and 1 MiB + 17 of one byte; thorough: + 200 KiB, 64 KiB exactly} x 46 content types (every branch of do_compress, unparsable, non-ASCII, "
+        "absent = sniffed) x handler opt-out x a content-encoding header of the handler's own (identity / gzip / br) x status (200, 201, 403, 404, 410, "
+        "500: admitted to the cache or not) x cached / one-shot option sets x the four preferred algorithms x every compression level (zstd -7..22, "
+        "brotli 0..11, gzip 0..9, independently for both option sets) x 1-6 request groups (GET / HEAD / POST; single, n = 2..64 concurrent futures "
+        "joined on one thread, or n tasks spawned behind a barrier on a 4-worker multi-thread runtime; a second and third Accept-Encoding field line) "
+        "with Accept-Encoding from the RFC 7231 grammar (codings in any case, *, q in {0, 0.0, 0.000, 0., 0.5, 0.001, 0.999, 1, 1.0, 1.000, .5, 1e-46 "
+        "written out, ...} and every other text f32::from_str accepts or just not: 0e0, -0, +0.0, 1e-50, 7e-46 / 8e-46 (the binary32 rounding "
+        "boundary), inf, NaN, 1e, ...; OWS, duplicates, unknown codings), mutated / random garbage, non-ASCII bytes, none.  The harness decodes every "
+        "reply body with the standard decoder of the algorithm named in content-encoding (flate2 MultiGzDecoder, brotli BrotliDecompress, zstd "
+        "decode_all) and reports status, label, complete-stream, decoded == identity body (also == CacheReply.identity_body), length, bytes == identity "
+        "bytes, and whether the buffer sent is the very allocation an earlier reply carried (the memoised bytes: pointer identity, all replies kept "
+        "alive); the extracted model predicts the same tuple (its encoders are stand-ins: label / status / equalities / reuse are compared).  "
+        "(b) neg.spec: the executable Coq specification spec_verdict (must-be-406, identity allowed, codings allowed) evaluated on the same input and "
+        "checked against every reply of the implementation.  (c) neg.list_header: kvarn_utils::parse::list_header directly, dev and nochk profiles, on "
+        "grammar, mutated and random UTF-8 text, compared with the byte-level model (qualities by class: == 0.0, == 1.0, other; outside the grammar "
+        "compared by what the negotiation can see: the number of values and those naming gzip / br / zstd / identity / *).  (d) neg.mime: "
+        "Mime::from_str + comprash::do_compress vs the model's stand-in parser and do_compress.  Spec oracles independent of the model (extra_oracle, "
+        "also on the cases the model does not cover): every non-406 reply has the handler's status and decodes as a complete stream to exactly the "
+        "identity body; its label is identity / the handler's own (empty body) or a coding listed with non-zero quality per a reference reading of "
+        "Accept-Encoding (split on ',', strip OWS, weight after ';', exact binary32 class of the weight by rational arithmetic); identity is never sent "
+        "to a client whose header forbids it (identity;q=0 in any case, or *;q=0 without an identity member); bodies < 50 bytes, opted-out handlers and "
+        "already-compressed media types (png, jpeg, woff2, mp4, ogg, pdf, zip, zstd, gzip) are never sent compressed; 406 only if identity is "
+        "forbidden, and never when a listed coding applies to a plain text type of >= 50 bytes; a later GET / HEAD of a cached page that is sent a "
+        "coding an earlier one was sent carries the memoised buffer; list_header on a grammar header equals the reference parse.  "
         "distinct_nontrivial = distinct (input, model outcome) with a compressed label or a 406 (pipe), a zero / other quality (list_header), any (mime)")
 ASSUMPTIONS = [
     "encoders (flate2 GzEncoder, brotli CompressorWriter, zstd Encoder) are a Section variable; lossless_partial assumes a decoder inverts them and "
-    "that their output is non-empty; this is validated on every run by the standard decoders on the bytes kvarn sends, not proved (DEFLATE / Brotli / "
-    "Zstandard have no Gallina model here)",
-    "f32::from_str and Mime::from_str are Section variables in every theorem; the correspondence run instantiates them with stand-ins exact on plain "
-    "decimals (digits with at most one '.', compared exactly against the binary32 rounding thresholds) and on 'type/subtype[+suffix][; charset=utf-8]'; "
-    "list members ending in a signed / exponent / inf / nan form and a sniffed (absent) content type on a non-empty body are out of domain and counted",
-    "memo cell: sequentially consistent interleavings only; the unsynchronised UnsafeCell write is a data race in Rust's memory model and nothing is "
-    "claimed about it; the run exercises the interleavings that n futures joined on one thread produce (all check, all compute, first writes)",
-    "the handler sets no content-encoding of its own; check_content_type only appends a charset parameter (type / subtype unchanged); GET, status 200, "
-    "no vary rules; admission to the response cache is C04's subject (here: ServerCachePreference::Full => cached, None => not cached)",
+    "that their output is non-empty; this is validated on every run by the standard decoders on the bytes kvarn sends (every level, bodies up to "
+    "1 MiB, compressible and not), not proved (DEFLATE / Brotli / Zstandard have no Gallina model here)",
+    "f32::from_str and Mime::from_str are Section variables in every theorem; the correspondence run instantiates them with stand-ins: the full "
+    "grammar of f32::from_str (sign, exponent, inf / nan) classified exactly against the binary32 rounding boundaries, and "
+    "'type/subtype[+suffix][; charset=utf-8]'; a sniffed (absent) content type on a non-empty body is out of the model's domain (counted; the spec "
+    "oracles still judge those replies)",
+    "memo cell: the model is the protocol of tokio::sync::OnceCell::get_or_init (fast-path check, one permit, store, read) under all "
+    "interleavings of its steps; OnceCell's own implementation (semaphore, Acquire / Release on the flag) is trusted; the run exercises n futures "
+    "joined on one thread, n tasks released together on a 4-worker runtime, and (neg.stress) hundreds to tens of thousands of such rounds: every "
+    "reply decoded and all carrying one buffer",
+    "n concurrent requests that arrive before the page has a cache entry: the model takes the schedule in which all of them miss the cache (each "
+    "compresses for itself); on the real code a late one may find the entry an early one inserted, so the 'memoised buffer' flag of that one group "
+    "is not compared (everything else is)",
+    "a content-encoding header set by the handler is modelled as the code treats it: the handler's bytes are the identity body, the header is "
+    "replaced for a non-empty body (handler_coding_overwritten) and kept on an empty one (lossless_partial excludes a non-identity one there); "
+    "check_content_type only appends a charset parameter (type / subtype unchanged); no vary rules; admission to the response cache follows "
+    "ServerCachePreference::Full / None, default_status_code_cache_filter and GET / HEAD (C04's subject otherwise); Range is applied later, in "
+    "SendKind::send, to the coded body (C09's subject)",
+    "only the first Accept-Encoding field line is read (headers().get): modelled, generated and judged as such",
     "list_header_wf: names made only of number characters (0-9 . + - e E and the letters of inf / nan / infinity) are excluded, a member without weight "
-    "is given the f32 value of the text in front of it (Accept-Encoding: 0 yields quality 0.0 for the coding '0'); no registered coding has such a name",
-    "not interpreted by the code and stated as such (examples star_is_not_interpreted, floor_beats_refusal): '*' (also '*;q=0'), case-insensitive coding "
-    "names, and identity;q=0 on bodies under the floor / opted-out handlers (RFC 7231 5.3.4 lets a server answer without content-coding there)",
+    "is given the f32 value of the text in front of it (Accept-Encoding: 0 yields quality 0.0 for the coding '0'); no registered coding has such a name; "
+    "a weight written 'Q=' (capital) starts at the first digit or '.', so it is in the reference grammar with plain decimals only",
+    "not interpreted by the code and stated as such: '*' with a non-zero quality makes no coding acceptable (the property asks for a LISTED coding), "
+    "coding names other than identity are compared case-sensitively ('GZIP' is an unknown coding: identity is sent)",
 ]
 TRUSTED = ["modelled: utils/src/parse.rs list_header (+ trim_ows); src/comprash.rs do_compress, CompressionOptions, CompressedResponse::{new (floor), "
-           "clone_preferred, clone_identity_set_compression, get_gzip/get_br/get_zstd}; src/lib.rs handle_cache 406 mapping and the cached / one-shot "
-           "option choice; http::HeaderValue::to_str as visible-ASCII-or-TAB",
-           "standard decoders in the harness: flate2 1.x MultiGzDecoder, brotli 7 BrotliDecompress, zstd 0.13 decode_all (harness/src/c00pipe.rs decode_body)"]
-LEVEL_TEXT = ("Coq theorems about a byte-level model of list_header and a transcription of clone_preferred, for every header value, body, content type, "
-              "option set and (memo cell) every interleaving: chosen coding is identity or listed with quality != 0.0 (chosen_is_listed, never_refused; for arbitrary text its name occurs in the header: chosen_occurs_in_header); "
-              "identity;q=0 is honoured past the floor (identity_refusal_honoured); < 50 bytes / opt-out / uncompressible content type => identity "
-              "(floors, floors_content_type); the label names exactly the encoder whose output is sent and the memo cell keeps it (label_matches_body, "
-              "memoised_bytes_reused); 406 <=> identity refused and nothing else applies (not_acceptable_iff); preferred-then-zstd-br-gzip order "
-              "(preference_order); list_header = reference parse on the RFC 7231 grammar with OWS (list_header_wf) and total with at most commas+1 values "
-              "(list_header_total); memo cell invariant, write-once and completion under all SC interleavings of n tasks (memo_invariant, memo_write_once, "
-              "memo_completes).  PARTIAL: lossless_partial (every reply of every history decodes to the identity body) is relative to the hypothesis that a "
-              "decoder inverts the encoder; that hypothesis is validated, not proved, by decoding every reply of the run with the standard decoders.  "
-              "list_header_ows_v0_refuted: the grammar header on which kvarn 0.6.3's list_header was not the reference parse (repaired by fix: 7270dfd).")
+           "clone_preferred, clone_identity_set_compression, get_gzip/get_br/get_zstd}; src/lib.rs handle_cache 406 mapping, the cached / one-shot "
+           "option choice, get_cache (status filter, method) and the cache lookup for GET / HEAD; http::HeaderValue::to_str as visible-ASCII-or-TAB",
+           "standard decoders in the harness: flate2 1.x MultiGzDecoder, brotli 7 BrotliDecompress, zstd 0.13 decode_all (harness/src/c00pipe.rs decode_body)",
+           "Bytes::as_ptr equality of two live buffers as 'the same allocation' (memoised-buffer observation)"]
+LEVEL_TEXT = ("Coq theorems about a byte-level model of list_header and a transcription of clone_preferred / handle_cache's use of it, for every header "
+              "value, body, content type, handler content-encoding, status, method, option set and (memo cell) every interleaving: chosen coding is identity "
+              "or listed with quality != 0.0 (chosen_is_listed, never_refused; for arbitrary text its name occurs in the header: chosen_occurs_in_header); "
+              "'the client forbids identity' = identity;q=0 in any case, or *;q=0 without an identity member (refuses_identity_iff), and then identity is "
+              "NEVER sent, whatever the body size, opt-out or content type (identity_refusal_honoured, no side condition any more); < 50 bytes / opt-out "
+              "=> identity or, if forbidden, 406, no memo cell touched (floors); uncompressible content type likewise (floors_content_type); 406 <=> "
+              "identity forbidden and nothing else applies, i.e. not compressed at all or no coding listed (not_acceptable_iff, full equivalence); the "
+              "label names exactly the encoder whose output is sent, the memo cell keeps it, a handler's own content-encoding never survives on a "
+              "non-empty body (label_matches_body, handler_coding_overwritten, memoised_bytes_reused, memoised_reply: a reply flagged memoised carries "
+              "the cell's bytes and leaves them there); every reply of every history of a page — any status, GET / HEAD / other methods, cached or not, "
+              "groups of concurrent requests, from a cold cache — is allowed by the executable specification spec_verdict (serve_meets_spec; the same "
+              "spec_verdict judges every reply of the real code on each run); preferred-then-zstd-br-gzip order (preference_order); list_header = "
+              "reference parse on the RFC 7231 grammar with OWS (list_header_wf) and total with at most commas+1 values (list_header_total); memo cell "
+              "(OnceCell::get_or_init protocol) under all interleavings of n tasks: only encoder outputs are ever stored or returned, never a panic "
+              "(memo_invariant), written once (memo_write_once), never stuck and at most 4n steps (memo_completes).  PARTIAL: "
+              "lossless_partial (every reply of every such history decodes to the identity body) is relative to the hypothesis that a decoder inverts "
+              "the encoder; that hypothesis is validated, not proved, by decoding every reply of the run with the standard decoders.  Refuted for kvarn "
+              "0.6.3 and repaired: list_header_ows_v0_refuted (7270dfd), identity_refusal_floor_v0_refuted / identity_refusal_optout_v0_refuted "
+              "(identity;q=0 ignored under the floor / for opted-out handlers: 46abfcf), identity_refusal_star_v0_refuted (*;q=0: fb022d9), "
+              "identity_refusal_case_v0_refuted (Identity;q=0: 1fc432a), memo_double_write_v0_refuted (the UnsafeCell memo cell was written twice when two "
+              "worker threads raced between its second check and its write: ec0a225).")
 LEVEL_NOTE = ("Trusted: Coq kernel; extraction (sample re-checked in-kernel); hand transcription of the anchored code validated by the differential run on "
               "handle_cache / list_header / do_compress; the three decoder crates as the definition of 'standard decoder'; SC memory for the memo cell. "
-              "No axioms. Encoder losslessness: validated per run, not proved.")
-TECHNIQUE = ("Coq proof (state-machine invariant for list_header, case analysis of clone_preferred, inductive invariant over all schedules for the memo "
-             "cell) + differential correspondence on kvarn::handle_cache with standard decoders as spec oracle")
+              "No axioms. Encoder losslessness: validated per run, not proved. Not covered: streaming responses (compress is forced off for them and, "
+              "since 46abfcf, a forbidden identity does not turn them into a 406), Range over coded bodies (C09), more than one Accept-Encoding field "
+              "line (first one only, as the code reads it).")
+TECHNIQUE = ("Coq proof (state-machine invariant for list_header, case analysis of clone_preferred, lifting over all histories of a page, inductive "
+             "invariant over all schedules for the memo cell) + differential correspondence on kvarn::handle_cache with the Coq specification and "
+             "standard decoders as spec oracles")
